@@ -310,7 +310,9 @@ def spelling_pairs(rep):
               ('(e | f)', lambda: create(N('Infix', left=leaf('a'), operator='|', right=leaf('f')))),
               ('[e, f]', lambda: create(N('ListLiteral', elements=[leaf('a'), leaf('f')]))),
               ('(e // f)', lambda: create(N('Infix', left=leaf('a'), operator='//', right=leaf('f')))),
-              ('(e >> f)', lambda: create(N('Infix', left=leaf('a'), operator='>>', right=leaf('f'))))]
+              ('(e >> f)', lambda: create(N('Infix', left=leaf('a'), operator='>>', right=leaf('f')))),
+              ('Skip(e, f)', lambda: create(call('Skip', leaf('a'), leaf('f')))),
+              ('Longest(e, f)', lambda: create(call('Longest', leaf('a'), leaf('f'))))]
         return mk
     post = [('?', 'Opt'), ('*', 'List'), ('+', 'Some')]
     binary = [('>>', 'Right'), ('<<', 'Left'), ('//', 'Sep')]
@@ -328,6 +330,17 @@ def spelling_pairs(rep):
             pairs.append((f'b {op} {ilabel} / {ctor}(b, {ilabel})',
                           ('lazy', lambda mk_inner=mk_inner, op=op: N('Infix', left=leaf('b'), operator=op, right=mk_inner())),
                           ('lazy', lambda mk_inner=mk_inner, ctor=ctor: call(ctor, leaf('b'), mk_inner()))))
+    # `|` merges nested *choices* into one flat Choice (documented); any other operand - a sequence, a
+    # repetition, Skip, Longest (classes that also keep their children in `.exprs`) - is one alternative
+    for ilabel, mk_inner in inner_operands():
+        if ilabel in ('e', '(e | f)'):
+            continue
+        pairs.append((f'{ilabel} | b / Choice({ilabel}, b)',
+                      ('lazy', lambda mk_inner=mk_inner: N('Infix', left=mk_inner(), operator='|', right=leaf('b'))),
+                      ('lazy', lambda mk_inner=mk_inner: call('Choice', mk_inner(), leaf('b')))))
+        pairs.append((f'b | {ilabel} / Choice(b, {ilabel})',
+                      ('lazy', lambda mk_inner=mk_inner: N('Infix', left=leaf('b'), operator='|', right=mk_inner())),
+                      ('lazy', lambda mk_inner=mk_inner: call('Choice', leaf('b'), mk_inner()))))
     for label, t1, t2 in pairs:
         if isinstance(t1, tuple) and t1[:1] == ('lazy',):
             try:
